@@ -5,9 +5,17 @@ package expressions
 // Contracts for the verification machinery in /verif (govc). Comment-only file:
 // compiled only with -tags verif, and even then it contains no code.
 
+// Evaluating an expression may allocate and may fill the memo of a Drop wrapper; it leaves every
+// object that existed before unchanged in the heaps a render depends on (value slices, strings,
+// binding and filter maps, what writers have accepted, captured variables).
+//@ macro evalkeeps = sameold("P$Fn") && sameold("P$Val") && sameold("S$Val") && sameold("S$Str") && sameold("S$Fn") && sameold("M$has$Str$Val") && sameold("M$val$Str$Val") && sameold("M$has$Str$Int") && sameold("M$val$Str$Int") && sameheap("W$total")
 //@ interface expressions.Expression
 //@ method Evaluate
-//@ assigns nothing
+//@ requires ctx: arg0 != nil && (is(arg0, *expressions.context) ==> pl_ptr(arg0) != 0)
+//@ assigns *
+//@ ensures keeps: @evalkeeps
+//@ ensures tree: @tree
+//@ typeinv expressions.expression: self.evaluator != nil
 
 //@ func expressions.Constant$1
 //@ expect func(_ expressions.Context) (any, error)
@@ -20,8 +28,10 @@ package expressions
 //@ expect func(ctx expressions.Context) (any, error)
 //@ props C10 C01
 //@ panics nothing
-//@ assigns nothing
-//@ requires args: e != nil
+//@ assigns *
+//@ ensures keeps: @evalkeeps
+//@ ensures tree: @tree
+//@ requires args: e != nil && ctx != nil && (is(ctx, *expressions.context) ==> pl_ptr(ctx) != 0)
 //@ ghost inner Val = nil
 //@ ghost innerErr Val = nil
 //@ at call Evaluate #1: inner = result0
@@ -47,7 +57,7 @@ package expressions
 // starts keeps its contents in these heaps (captured variables, slices of values, the
 // bindings and filter maps, the context). For filters called through reflection this is an
 // assumption; for the evaluators under contract it is an obligation (impl).
-//@ macro evalframe = sameold("P$Fn") && sameold("P$Val") && sameold("S$Val") && sameold("S$Fn") && sameold("M$has$Str$Val") && sameold("M$val$Str$Val") && sameold("F$expressions.context$Config") && sameold("F$expressions.context$bindings")
+//@ macro evalframe = @evalkeeps && @tree && sameold("F$expressions.context$Config") && sameold("F$expressions.context$bindings")
 
 // ---- evaluators (C08) --------------------------------------------------------------------
 // The grammar actions assemble closures of this type; each returns a non-nil Value or
@@ -184,7 +194,7 @@ package expressions
 //@ props C08 C01
 //@ panics nothing
 //@ assigns alloc F$expressions.context$Config, alloc F$expressions.context$bindings
-//@ ensures ctx: result != nil && is(result, *expressions.context) && fresh(as(result, *expressions.context)) && valid(as(result, *expressions.context)) && as(result, *expressions.context).bindings == vars
+//@ ensures ctx: result != nil && is(result, *expressions.context) && fresh(as(result, *expressions.context)) && pl_ptr(result) != 0 && valid(as(result, *expressions.context)) && as(result, *expressions.context).bindings == vars
 
 // ---- operator actions of the grammar (C09): each evaluates its left operand, then its right
 // operand, once each, and returns the wrapper of exactly the comparison named by the operator.
@@ -369,3 +379,14 @@ package expressions
 //@ at call Contains #1 before assert operands: this == a && arg0 == b
 //@ at call Contains #1: r = result
 //@ ensures contains: result != nil && result.Interface() == box(r, bool)
+
+// An expression object: evaluating it runs its evaluator (C08); the typed panic values are
+// turned into errors by the deferred recover, which the model does not execute - so the
+// contract lists them as possible panics of this function.
+//@ func (expressions.expression).Evaluate
+//@ props C08 C01
+//@ panics values.TypeError, expressions.InterpreterError, expressions.UndefinedFilter, expressions.FilterError
+//@ requires args: ctx != nil && (is(ctx, *expressions.context) ==> pl_ptr(ctx) != 0)
+//@ assigns *
+//@ ensures keeps: @evalkeeps
+//@ ensures tree: @tree
